@@ -304,7 +304,13 @@ def run_check(cfg, tier, seed, only=None):
     if cfg.get('gen') and all(v for k, v in builds.items() if k != 'revme'):
         ok, out = reflect()
         if not ok:
-            res.violate('reflect', 'reflection of finite tables from the compiled code failed', detail=out[-3000:])
+            cr = out.split('@@CRUMB ', 1)[1] if '@@CRUMB ' in out else None
+            if cr and cr.startswith(pid + ' '):
+                # the process died while the implementation ran this input, and for this property that is the violation
+                res.violate('property', 'the implementation aborted the process on this input (while the finite tables were being reflected)',
+                            case={'case': cr, 'driver': 'reflect'}, detail=out[-3000:], found_input=True)
+            else:
+                res.violate('reflect', 'reflection of finite tables from the compiled code failed', case={'case': cr} if cr else None, detail=out[-3000:])
 
     # 3. proofs
     targets = [f[:-2] + '.vo' for f in cfg['coq']]
@@ -382,10 +388,18 @@ def run_check(cfg, tier, seed, only=None):
                    drv['name'], '--tier', tier, '--seed', str(seed), '--out', wdir]
             if only is not None:
                 cmd += ['--only', str(only)]
-            rc, out = sh(cmd, cwd=wdir, timeout=drv.get('timeout', 3000))
+            crumb = os.path.join(wdir, 'crumb.txt')
+            if os.path.exists(crumb):
+                os.remove(crumb)
+            rc, out = sh(cmd, cwd=wdir, timeout=drv.get('timeout', 3000), env=dict(ENV, VH_CRUMB=crumb))
             if rc != 0:
-                res.violate('harness-run', 'harness driver %s (%s) failed with exit code %d' % (drv['name'], prof, rc),
-                            detail=out[-3000:])
+                cr = open(crumb, errors='replace').read() if os.path.exists(crumb) else None
+                if cr and cr.startswith(pid + ' ') and rc != 124:
+                    res.violate('property', 'the implementation aborted the process on this input (driver %s, %s profile, exit code %d)' % (drv['name'], prof, rc),
+                                case={'case': cr, 'driver': drv['name'], 'profile': prof}, detail=out[-3000:], found_input=True)
+                else:
+                    res.violate('harness-run', 'harness driver %s (%s) failed with exit code %d' % (drv['name'], prof, rc),
+                                case={'case': cr} if cr else None, detail=out[-3000:])
                 continue
             meta = json.load(open(os.path.join(wdir, 'meta_%s.json' % mod)))
             meta['profile'] = prof; meta['driver'] = drv['name']
@@ -444,8 +458,13 @@ def reflect():
     os.makedirs(COQ + '/Gen', exist_ok=True)
     tmp = os.path.join(WORK, 'gen-tmp')
     os.makedirs(tmp, exist_ok=True)
-    rc, out = sh([harness_bin('debug'), 'reflect', '--out', tmp], timeout=1200)
+    crumb = os.path.join(tmp, 'crumb.txt')
+    if os.path.exists(crumb):
+        os.remove(crumb)
+    rc, out = sh([harness_bin('debug'), 'reflect', '--out', tmp], timeout=1200, env=dict(ENV, VH_CRUMB=crumb))
     if rc != 0:
+        if os.path.exists(crumb):
+            out += '\n@@CRUMB ' + open(crumb, errors='replace').read()
         return False, out
     with Lock('coq'):
         for f in glob.glob(tmp + '/*.v'):
